@@ -25,6 +25,7 @@ fn decl_ident<'a>(c: &mut Cur<'a>, what: &str) -> PResult<&'a Tok> {
             c.bump();
             Ok(t)
         }
+        Some(t) if t.kind == TokKind::Num => c.fail(true, format!("expected identifier, found a name that starts with a digit ({what})")),
         _ => c.fail(true, format!("expected identifier ({what})")),
     }
 }
